@@ -553,7 +553,18 @@ func runRegistrySeq(rc *RunCtx, prop string) {
 			}
 		}
 		for i := 0; i < n; i++ {
+			// every call takes a fixed-size block of the generation stream, so that
+			// the shrinker can delete whole calls
+			tp.Mark()
+			blockStart := tp.Pos()
+			pad := func() {
+				for tp.Pos()-blockStart < 20 {
+					tp.Choose(1, "pad")
+				}
+			}
 			op := genOp(w)
+			doProbe := prop != "C20" && (op.Kind != "send") && tp.Choose(3, "probe") == 0
+			pad()
 			var preObs, preDel, preUse string
 			diff := prop == "C05"
 			if diff {
@@ -596,7 +607,7 @@ func runRegistrySeq(rc *RunCtx, prop string) {
 				}
 			}
 			// periodic delivery probe against the model
-			if prop != "C20" && (op.Kind != "send") && tp.Choose(3, "probe") == 0 {
+			if doProbe {
 				for _, t := range types {
 					for _, m := range w.sendProbe(t) {
 						if relevant(prop, m.rule) {
